@@ -178,7 +178,8 @@ class MUSE(BaseClassifier):
 
         # On each dimension, perform SFA
         for ind, column in enumerate(self.col_names):
-            X_dim = X[[column]]
+            # select the variable by position: the labels of a 3d array differ
+            X_dim = X.iloc[:, [ind]]
             X_dim = from_nested_to_3d_numpy(X_dim)
             series_length = X_dim.shape[-1]  # TODO compute minimum over all ts ?
 
@@ -286,7 +287,8 @@ class MUSE(BaseClassifier):
 
         # On each dimension, perform SFA
         for ind, column in enumerate(self.col_names):
-            X_dim = X[[column]]
+            # select the variable by position: the labels of a 3d array differ
+            X_dim = X.iloc[:, [ind]]
             X_dim = from_nested_to_3d_numpy(X_dim)
 
             for i, window_size in enumerate(self.window_sizes[ind]):
